@@ -237,7 +237,7 @@ class PolyChordOptimizer(Optimizer):
                 fname = '1-.txt'
             data = np.loadtxt(os.path.join(self.dir_polychord, fname))
             # find maximum likelihood index
-            mL_idx = np.where(data[:, 1] == np.min(data[:, 1]))
+            mL_idx = int(np.argmin(data[:, 1]))
             stats['modes'][midx]['maximum a posterior'] = {}
             stats['modes'][midx]['mean'] = {}
             stats['modes'][midx]['sigma'] = {}
